@@ -105,6 +105,8 @@ def decode_slices(U, utf8, n, cw=1, bw=1):
 def _rand_tree(rng, depth=0):
     names = ["manifest", "application", "activity", "intent-filter", "action", "data", "uses-sdk", "meta-data", "a", "b1", "x_y", "t.u"]
     e = W.Elem(rng.choice(names))
+    if rng.random() < 0.06:
+        e.name = rng.choice(["h\xe9llo", "\u5143\u7d20"])          # XML names may contain letters outside ASCII
     for _ in range(rng.randint(0, 3)):
         kind = rng.choice(["str", "int", "hex", "bool", "ref", "dimen", "float", "str", "int", "attr", "fraction", "argb8", "rgb8", "argb4", "rgb4"])
         v = {"str": lambda: rng.choice(["", "hello", "com.example.App", ".Main", "üñí", "a b", "x" * 40, "\U0001F600z", "\ufeffstarts with U+FEFF", "\u65e5" * 50, "\xe9" * 100, "x" * 200,
@@ -120,6 +122,8 @@ def _rand_tree(rng, depth=0):
              "rgb4": lambda: rng.choice([0xFFFFFFFF, 0xFF112233, rng.randrange(1 << 32)])}[kind]()
         ns = rng.choice([None, W.ANDROID_NS, "http://example.com/ns"])
         nm = rng.choice(["name", "value", "label", "minSdkVersion", "exported", "k%d" % rng.randint(0, 9)])
+        if rng.random() < 0.04:
+            nm = rng.choice(["\xe4ttr", "\xf6ttr"])
         if not any(a.name == nm and a.ns == ns for a in e.attrs):
             known = {"name": 0x01010003, "label": 0x01010001, "exported": 0x01010010, "minSdkVersion": 0x0101020C, "value": 0x01010024}
             rid = known.get(nm) if (ns == W.ANDROID_NS and rng.random() < 0.5) else None   # (name, id) pairs of the framework
@@ -146,10 +150,12 @@ def _cmp(U, want, got, path):
     from lxml import etree
     tag = ("{%s}%s" % (want.ns, want.name)) if want.ns else want.name
     ok = got.tag == tag
-    U.ensures("element name and namespace", ok, path=path, got=got.tag, want=tag)
+    na = lambda x: any(ord(ch) > 127 for ch in x)
+    U.ensures("element name and namespace", ok, path=path, got=got.tag, want=tag, unless=[U.known("KF-C26-1", na(want.name))])
     wa = {(("{%s}%s" % (a.ns, a.name)) if a.ns else a.name): _expect_value(*a.value) for a in want.attrs}
     ga = dict(got.attrib)
-    U.ensures("attribute names (with namespace URIs) and their typed values", ga == wa, path=path, got=ga, want=wa)
+    U.ensures("attribute names (with namespace URIs) and their typed values", ga == wa, path=path, got=ga, want=wa,
+              unless=[U.known("KF-C26-1", any(na(a.name) for a in want.attrs))])
     if want.text is not None:
         U.ensures("text", (got.text or "") == want.text, path=path, got=got.text, want=want.text)
     if getattr(want, "tail", None) is not None:
